@@ -46,26 +46,45 @@ package encryptfs
 //@   at_call Filespace.*,!Filespace.MkdirAll requires false
 
 //@ func (*EncryptFS).ReadFile [C03 C05]
+// C05: the stored bytes are decrypted with this filespace's key material; on any error no data is returned
+//@   trace Filespace.ReadFile as BASEREAD bind raw
+//@   at_call Cipher.Decrypt requires $0 == fs.hash && $1 == raw.0
+//@   ensures err != nil ==> data == nil
 //@   requires fs.baseFS != nil && fs.Cipher != nil
 //@   at_call Filespace.ReadFile requires $0 == $p0
 //@   at_call Filespace.*,!Filespace.ReadFile requires false
 
 //@ func (*EncryptFS).WriteFile [C03 C05]
+// C05: what reaches the base filespace is exactly what the cipher returned (never the plaintext)
+//@   trace Cipher.Encrypt as ENC bind enc
+//@   at_call Cipher.Encrypt requires $0 == fs.hash && $1 == $p1
+//@   at_call Filespace.WriteFile requires $1 == enc.0 && $2 == $p2
+//@   trace Filespace.WriteFile as BASEWRITE
+//@   trace_ensures err == nil : ^ENC BASEWRITE $
 //@   requires fs.baseFS != nil && fs.Cipher != nil
 //@   at_call Filespace.WriteFile requires $0 == $p0
 //@   at_call Filespace.*,!Filespace.WriteFile requires false
 
 //@ func (*EncryptFS).Filespace [C03 C05]
+// C05: child views share the cipher and the key material
+//@   ensures err == nil ==> typeis(childFS, "*EncryptFS") && as(childFS, "*EncryptFS").hash == fs.hash && as(childFS, "*EncryptFS").Cipher == fs.Cipher
+//@   ensures err != nil ==> childFS == nil
 //@   requires fs.baseFS != nil && fs.Cipher != nil
 //@   at_call Filespace.Filespace requires $0 == $p0
 //@   at_call Filespace.*,!Filespace.Filespace requires false
 
 //@ func (*EncryptFS).Reader [C03 C05]
+//@   trace Filespace.Reader as BASEREADER bind br
+//@   at_call Cipher.DecryptReader requires $0 == fs.hash && $1 == br.0
+//@   ensures err != nil ==> reader == nil
 //@   requires fs.baseFS != nil && fs.Cipher != nil
 //@   at_call Filespace.Reader requires $0 == $p0
 //@   at_call Filespace.*,!Filespace.Reader requires false
 
 //@ func (*EncryptFS).Writer [C03 C05]
+//@   trace Filespace.Writer as BASEWRITER bind bw
+//@   at_call Cipher.EncryptWriter requires $0 == fs.hash && $1 == bw.0
+//@   ensures err != nil ==> writer == nil
 //@   requires fs.baseFS != nil && fs.Cipher != nil
 //@   at_call Filespace.Writer requires $0 == $p0
 //@   at_call Filespace.*,!Filespace.Writer requires false
@@ -85,8 +104,15 @@ package encryptfs
 //@   at_call Filespace.Lstat requires $0 == $p0
 //@   at_call Filespace.*,!Filespace.Lstat requires false
 
-
 //@ type EncryptFS
 //@   field baseFS immutable
 //@   field hash immutable
 //@   field Cipher immutable
+
+// C05: key material is Secret ++ [host id] ++ Salt, so equal settings give equal keys
+//@ func NewEncryptFS [C05]
+//@   ensures err == nil && typeis(result0, "*EncryptFS")
+//@   ensures as(result0, "*EncryptFS").baseFS == baseFS && as(result0, "*EncryptFS").Cipher == settings.Cipher
+//@   ensures !settings.HostOnly ==> len(as(result0, "*EncryptFS").hash) == len(settings.Secret) + len(settings.Salt)
+//@   ensures !settings.HostOnly ==> forall(k, 0 <= k && k < len(settings.Secret) ==> as(result0, "*EncryptFS").hash[k] == settings.Secret[k])
+//@   ensures !settings.HostOnly ==> forall(k, 0 <= k && k < len(settings.Salt) ==> as(result0, "*EncryptFS").hash[len(settings.Secret) + k] == settings.Salt[k])
